@@ -54,6 +54,8 @@ static _Atomic nid_t gvt_nodes;
 static __thread unsigned gvt_completed;
 /// The count of local threads which left the main loop and are waiting in gvt_msg_drain()
 static _Atomic rid_t drain_waiting;
+/// Set once all the threads of all the nodes left the main loop and are waiting in gvt_msg_drain()
+static _Atomic bool drain_all_waiting;
 
 __thread _Bool gvt_phase;
 __thread uint32_t remote_msg_seq[2][MAX_NODES];
@@ -294,7 +296,10 @@ void gvt_msg_drain(void)
 	// Once a thread is waiting here no new reduction is started (see gvt_phase_run()).
 	// A reduction completed here has been (or will be) logged by the threads which complete it in the main loop:
 	// log it too, so that every thread and the node hold the same number of statistics records
-	while(thread_phase != thread_phase_idle) { // flush partial gvt algorithm
+	// The thread which starts the reductions also waits for the one it started last to be over everywhere: with MPI its
+	// MSG_CTRL_GVT_START may not even have been received yet, and until then everybody (itself included) looks idle
+	while(thread_phase != thread_phase_idle || // flush partial gvt algorithm
+	    (!rid && !nid && atomic_load_explicit(&gvt_nodes, memory_order_relaxed))) {
 		simtime_t gvt = gvt_phase_run();
 		if(unlikely(gvt != 0.0))
 			VH(VH_GVT_VALUE, NULL, VH_BITS(gvt), 1);
@@ -306,8 +311,21 @@ void gvt_msg_drain(void)
 	}
 	// announce the arrival only when idle: a waiting thread leaves as soon as everybody arrived and it is idle itself
 	atomic_fetch_add_explicit(&drain_waiting, 1U, memory_order_acq_rel);
+	// The same holds across nodes: another node can still start a reduction (its MSG_CTRL_GVT_START may even be in
+	// flight), so a blocking node barrier here would deadlock. The first thread enters a non blocking barrier once all
+	// the local threads arrived; everybody keeps serving reductions and MPI traffic until all the nodes entered it.
+	bool node_barrier_started = false;
 	while(thread_phase != thread_phase_idle ||
-	    atomic_load_explicit(&drain_waiting, memory_order_acquire) != global_config.n_threads) {
+	    !atomic_load_explicit(&drain_all_waiting, memory_order_acquire)) {
+		if(!rid && !atomic_load_explicit(&drain_all_waiting, memory_order_relaxed) &&
+		    atomic_load_explicit(&drain_waiting, memory_order_acquire) == global_config.n_threads) {
+			if(!node_barrier_started) {
+				mpi_node_barrier_start();
+				node_barrier_started = true;
+			} else if(mpi_node_barrier_done()) {
+				atomic_store_explicit(&drain_all_waiting, true, memory_order_release);
+			}
+		}
 		simtime_t gvt = gvt_phase_run();
 		if(unlikely(gvt != 0.0))
 			VH(VH_GVT_VALUE, NULL, VH_BITS(gvt), 1);
@@ -320,6 +338,8 @@ void gvt_msg_drain(void)
 
 	VH(VH_DRAIN, NULL, 1, 0);
 	if(sync_thread_barrier()) {
+		// nobody can start a reduction any more: wait until every node has noticed it, so that the flushing
+		// reductions below are the same ones for everybody
 		mpi_node_barrier();
 		atomic_store_explicit(&drain_waiting, 0U, memory_order_release); // the flushing reductions below must start
 	}
